@@ -274,6 +274,13 @@ def run (real : Bool) (lines : List String) : IO Unit := do
             let amb := (List.range col.size).any fun s => let x := DrvScalar.abs col[s]!; x > 0.0 && x < 1e-10
             if nzs != implStates && !amb then
               tally ← pfail s!"actRight returned states {implStates}, Jordan-Wigner column has {nzs}" tally
+            else if !amb then
+              -- the values as well (sign errors leave the states unchanged): the model's action on the implementation's own
+              -- polynomial is the Jordan-Wigner column (C05.polynomial_action)
+              let sp := actPoly IA ket.toNat!
+              let want := s!"{sp.length}" ++ String.join (sp.map fun (s, v) => s!" {s} {if real then hexOfFloat (DrvScalar.re v) else valStr v}")
+              if want != " ".intercalate rhs then
+                tally ← pfail s!"actRight returned [{" ".intercalate rhs}], the Jordan-Wigner action of the same polynomial is [{want}]" tally
           else if modesOf IA ≤ M then
             -- wide spaces: sparse Jordan-Wigner action (`actPoly`, proved to be the JW representation: C05.polynomial_action)
             -- of the implementation's own polynomial on this ket
